@@ -140,9 +140,16 @@ def do_replay(path):
             print(f"VIOLATION property={data['property']} replay={path}")
             return EXIT_VIOLATION
         return EXIT_OK
-    from .kx import replay as kxreplay
-    ok, info = kxreplay.replay(data)
-    print("replay:", json.dumps(info, default=str))
+    # SX / KX: every case of an obligation shares one replay function (real code, no symbols)
+    import importlib
+    mod = importlib.import_module(data["harness"])
+    res = getattr(mod, data["func"])("quick")
+    cases = res[0] if isinstance(res, tuple) else res
+    try:
+        ok, obs = cases[0].replay(data["cex"]["inputs"])
+    except Exception as e:
+        ok, obs = False, f"{type(e).__name__}: {e}"
+    print("replay:", json.dumps(dict(ok=ok, observed=str(obs)[:500])))
     if not ok:
         print(f"VIOLATION property={data['property']} replay={path}")
         return EXIT_VIOLATION
